@@ -80,3 +80,14 @@ Proof.
   - rewrite drop_node_arcs_only. destruct x. unfold drop_node, nodes_only. cbn. done.
   - destruct x. unfold drop_arc, nodes_only, arcs_only. cbn. by destruct (d_stoich d), (d_role d).
 Qed.
+
+(** non-vacuity: a catalyst (two arcs between one pair of nodes), coefficients 2 and 12, both attributes deleted *)
+Definition exa_net : net :=
+  mk_net ["K"] [(None, "r", [("A", 2%Z)], [("B", 1%Z); ("A", 1%Z)]); (Some "x", "q", [("B", 1%Z)], [("C", 12%Z)])] [("A", "CCO")].
+Definition exa_fl : bflags := BFlags (Some "S:") (Some "R:") 0 1 true true true false true true.
+Definition exa_d : drops := Drops false false false false true true false false.
+Example ex_drop_arcs_flag :
+  size (b_arcs (hypergraph_to_bipartite exa_fl exa_net)) = 5%nat ∧
+  tbgraph (hypergraph_to_bipartite (fl_drop exa_fl exa_d) exa_net) = tbgraph (drop_attrs (arcs_only exa_d) (hypergraph_to_bipartite exa_fl exa_net)) ∧
+  tbgraph (hypergraph_to_bipartite (fl_drop exa_fl exa_d) exa_net) ≠ tbgraph (hypergraph_to_bipartite exa_fl exa_net).
+Proof. split_and!; [by vm_compute|by vm_compute|]. intros Hq. vm_compute in Hq. discriminate Hq. Qed.
